@@ -3,8 +3,9 @@
 d=/verif/seeded/$1; tier=$2; shift 2
 cd /repo && git apply --check $d/patch.diff || { echo "patch does not apply"; exit 2; }
 git apply $d/patch.diff
-trap 'git -C /repo checkout -- . ; git -C /repo clean -fdq -- . 2>/dev/null' EXIT
+trap 'git -C /repo checkout -- . ; git -C /repo clean -fdq -- . 2>/dev/null; rm -rf "$VERIF_EVIDENCE_DIR"' EXIT
 cd /verif
+export VERIF_EVIDENCE_DIR=$(mktemp -d /tmp/seedev.XXXXXX)
 for c in "$@"; do
   out=$(./run.sh $tier $c 2>&1 | grep -v "^make\|^COQ\|^$")
   echo "$out" | grep -E "VIOLATION|$c $tier:" | head -4
